@@ -272,6 +272,10 @@ class ScriptedPeer(object):
                 if self._reply('data', 'data', 'go ahead') != '2':
                     self.need_reset = True
                     continue
+                if self.script.get('read_pause'):
+                    # the peer said 354 and then does not read for a while (its receive window fills up)
+                    self.stalled = 'content'
+                    gevent.sleep(self.script['read_pause'])
                 body = self._read_data()
                 self.cur['data'] = body
                 tag = ''
